@@ -15,7 +15,7 @@ func init() { register(&Check{ID: "C02", Run: runC02, ShardDepth: 3}) }
 var c02ReqDirs = []string{"", "no-cache", "max-age=0", "max-age=5", "max-stale", "max-stale=100", "min-fresh=5", "only-if-cached", "no-cache, only-if-cached", "max-age=5, only-if-cached"}
 
 const (
-	c02ETag = `"etag-v1"`
+	c02ETag          = `"etag-v1"`
 	c02ClientCurrent = `"client-current"`
 )
 
